@@ -36,14 +36,14 @@ type SOp struct {
 }
 
 type C11Case struct {
-	MaxInFlight int     `json:"max_in_flight"`
-	Expired     bool    `json:"expired"` // timeout -1s instead of 1h
+	MaxInFlight int  `json:"max_in_flight"`
+	Expired     bool `json:"expired"` // timeout -1s instead of 1h
 	// Short: timeout 50us, and the programs may contain "sleep" (400us of real time): events that are buffered
 	// when their push returns and stale by the time another worker's Maintain, push or Close looks at them
-	Short bool `json:"short,omitempty"`
-	Progs       [][]SOp `json:"progs"`
-	Reenter     string  `json:"reenter,omitempty"` // "", maintain, push, close
-	Schedule    []int   `json:"schedule"`
+	Short    bool    `json:"short,omitempty"`
+	Progs    [][]SOp `json:"progs"`
+	Reenter  string  `json:"reenter,omitempty"` // "", maintain, push, close
+	Schedule []int   `json:"schedule"`
 }
 
 func (c C11Case) Describe() string {
